@@ -1,5 +1,7 @@
 use std::borrow::Cow;
 
+use syn::ext::IdentExt;
+
 use crate::ast::Fields;
 use crate::codegen;
 use crate::options::{Core, InputField, ParseAttribute};
@@ -27,7 +29,7 @@ impl InputVariant {
             name_in_attr: self
                 .attr_name
                 .as_ref()
-                .map_or_else(|| Cow::Owned(self.ident.to_string()), Cow::Borrowed),
+                .map_or_else(|| Cow::Owned(self.ident.unraw().to_string()), Cow::Borrowed),
             data: self.data.as_ref().map(InputField::as_codegen_field),
             skip: self.skip.unwrap_or_default(),
             allow_unknown_fields: self.allow_unknown_fields.unwrap_or_default(),
@@ -92,7 +94,12 @@ impl InputVariant {
 
     fn with_inherited(mut self, parent: &Core) -> Self {
         if self.attr_name.is_none() {
-            self.attr_name = Some(parent.rename_rule.apply_to_variant(self.ident.to_string()));
+            // The `r#` of a raw identifier is spelling, not part of the variant's name.
+            self.attr_name = Some(
+                parent
+                    .rename_rule
+                    .apply_to_variant(self.ident.unraw().to_string()),
+            );
         }
 
         if self.allow_unknown_fields.is_none() {
